@@ -16,7 +16,7 @@ CONSTANTS DEV_TlsOptional,        \* TRUE: rfDiameter.tls / abmfDiameter.tls may
           DEV_DuplicatesAccepted, \* TRUE: a service name may be listed twice
           MaxDist, EmitOneIn
 
-Fields == <<"info", "logger", "name", "sbi", "scheme", "sbitls", "rf", "abmf", "cgf", "mongo", "svc", "nrf">>
+Fields == <<"info", "logger", "name", "sbi", "scheme", "sbitls", "rf", "abmf", "cgf", "mongo", "svc", "nrf", "keylog">>
 Dom(f) ==
   CASE f = "info"   -> {"ok", "absent", "badversion"}
     [] f = "logger" -> {"ok", "absent", "badlevel"}
@@ -24,20 +24,22 @@ Dom(f) ==
     [] f = "sbi"    -> {"ok", "absent", "port0"}
     [] f = "scheme" -> {"http", "https", "ftp", "empty"}
     [] f = "sbitls" -> {"present", "absent"}
-    [] f = "rf"     -> {"ok", "name", "badname", "absent", "notls", "port0", "port65536", "nohost"}
-    [] f = "abmf"   -> {"ok", "name", "badname", "absent", "notls", "port0", "port65536", "nohost"}
+    \* "sctp" / "sctpnotls": protocol sctp instead of tcp, with / without the tls block
+    [] f = "rf"     -> {"ok", "name", "badname", "absent", "notls", "port0", "port65536", "nohost", "sctp", "sctpnotls"}
+    [] f = "abmf"   -> {"ok", "name", "badname", "absent", "notls", "port0", "port65536", "nohost", "sctp", "sctpnotls"}
     [] f = "cgf"    -> {"ok", "absent", "enabled"}
     [] f = "mongo"  -> {"ok", "absent", "nourl"}
     [] f = "svc"    -> {"one", "three", "unknown", "empty", "dup", "case"}
     [] f = "nrf"    -> {"ok", "absent", "nourl"}
+    [] f = "keylog" -> {"none", "set"}      \* not a member of the file: whether the application is started with a TLS key log path
 Baseline == [info |-> "ok", logger |-> "ok", name |-> "ok", sbi |-> "ok", scheme |-> "http", sbitls |-> "present",
-             rf |-> "ok", abmf |-> "ok", cgf |-> "ok", mongo |-> "ok", svc |-> "one", nrf |-> "ok"]
+             rf |-> "ok", abmf |-> "ok", cgf |-> "ok", mongo |-> "ok", svc |-> "one", nrf |-> "ok", keylog |-> "none"]
 Cfgs == [info : Dom("info"), logger : Dom("logger"), name : Dom("name"), sbi : Dom("sbi"), scheme : Dom("scheme"),
          sbitls : Dom("sbitls"), rf : Dom("rf"), abmf : Dom("abmf"), cgf : Dom("cgf"), mongo : Dom("mongo"),
-         svc : Dom("svc"), nrf : Dom("nrf")]
+         svc : Dom("svc"), nrf : Dom("nrf"), keylog : Dom("keylog")]
 Dist(c) == Cardinality({i \in 1..Len(Fields) : c[Fields[i]] # Baseline[Fields[i]]})
 
-DiamOK(v) == v \in {"ok", "name", "badname"} \/ (DEV_TlsOptional /\ v = "notls")    \* "name": hostIPv4 given as a host name
+DiamOK(v) == v \in {"ok", "name", "badname", "sctp"} \/ (DEV_TlsOptional /\ v \in {"notls", "sctpnotls"})    \* "name": hostIPv4 given as a host name
 Valid(c) ==
   /\ c.info = "ok" /\ c.logger = "ok" /\ c.name = "ok" /\ c.nrf = "ok" /\ c.mongo = "ok"
   /\ c.sbi = "ok" /\ c.scheme \in {"http", "https"}
@@ -48,8 +50,8 @@ Valid(c) ==
 
 Present(c) ==
      (IF c.sbi # "absent" THEN {"sbi"} ELSE {}) \cup (IF c.sbi # "absent" /\ c.sbitls = "present" THEN {"sbi.tls"} ELSE {})
-  \cup (IF c.rf # "absent" THEN {"rf"} ELSE {}) \cup (IF c.rf \notin {"absent", "notls"} THEN {"rf.tls"} ELSE {})
-  \cup (IF c.abmf # "absent" THEN {"abmf"} ELSE {}) \cup (IF c.abmf \notin {"absent", "notls"} THEN {"abmf.tls"} ELSE {})
+  \cup (IF c.rf # "absent" THEN {"rf"} ELSE {}) \cup (IF c.rf \notin {"absent", "notls", "sctpnotls"} THEN {"rf.tls"} ELSE {})
+  \cup (IF c.abmf # "absent" THEN {"abmf"} ELSE {}) \cup (IF c.abmf \notin {"absent", "notls", "sctpnotls"} THEN {"abmf.tls"} ELSE {})
   \cup (IF c.cgf # "absent" THEN {"cgf"} ELSE {}) \cup (IF c.mongo # "absent" THEN {"mongo"} ELSE {})
 Needs(c) == {"sbi", "rf", "rf.tls", "abmf", "abmf.tls", "cgf", "mongo"} \cup (IF c.scheme = "https" THEN {"sbi.tls"} ELSE {})
 StartsOK(c) == Needs(c) \subseteq Present(c) /\ c.svc # "dup"      \* a duplicated service registers its routes twice
